@@ -168,7 +168,9 @@ func QuoteFields(v refmatch.Variant) []Field {
 			f = append(f, Field{Name: "qechoid", Where: "q", Off: 44, Len: 2}, Field{Name: "qechoseq", Where: "q", Off: 46, Len: 2, PerProbe: true})
 		case "udp":
 			f = append(f, Field{Name: "qsport", Where: "q", Off: 40, Len: 2, Strict: true}, Field{Name: "qdport", Where: "q", Off: 42, Len: 2},
-				Field{Name: "qplen", Where: "q", Off: 4, Len: 2, PerProbe: true})
+				Field{Name: "qplen", Where: "q", Off: 4, Len: 2, PerProbe: true},
+				// the quoted next header: the payload-length identifier only exists for a quoted UDP datagram
+				Field{Name: "qnexthdr", Where: "q", Off: 6, Len: 1})
 		}
 		return f
 	}
